@@ -26,7 +26,23 @@ def _tok(t, rng=None, alt=False):
     return str(t[1])
 
 
-MARKERS = ["#", "#", "%", "//"]
+MARKERS = ["#", "#", "%", "//", "--"]      # "--": a marker made of the character of the '-' rows (never "- -")
+
+
+# converters: whatever way a converter rejects a field, the readers raise TypeError
+def _conv_decimal(s):
+    from decimal import Decimal
+    return int(Decimal(s))       # decimal.InvalidOperation (an ArithmeticError) on junk
+
+
+def _conv_keyerr(s):
+    t = s.strip()
+    if not t.lstrip("+-").isdigit():
+        raise KeyError(s)        # e.g. a lookup table without the name
+    return int(t)
+
+
+CONVS = {"int": int, "decimal": _conv_decimal, "keyerr": _conv_keyerr}
 
 
 def render(line, delim, rng, marker="#", alt=False):
@@ -39,11 +55,12 @@ def render(line, delim, rng, marker="#", alt=False):
     return txt + "\n"
 
 
-def _parse(parser, lines, delim, directed, marker="#"):
+def _parse(parser, lines, delim, directed, marker="#", conv="int"):
     fn = dn.readwrite.edgelist.parse_snapshots if parser == "snapshots" else dn.readwrite.edgelist.parse_interactions
+    c = CONVS[conv]
     if marker == "#" :
-        return fn(lines, directed=directed, delimiter=delim, nodetype=int, timestamptype=int)
-    return fn(lines, comments=marker, directed=directed, delimiter=delim, nodetype=int, timestamptype=int)
+        return fn(lines, directed=directed, delimiter=delim, nodetype=c, timestamptype=c)
+    return fn(lines, comments=marker, directed=directed, delimiter=delim, nodetype=c, timestamptype=c)
 
 
 def _grid(case):
@@ -69,10 +86,11 @@ def job_parse(job):
     empty = core.observe(core.new_graph(directed, True), L, KNOWN, grid)
     marker = rng.choice(MARKERS)
     alt = rng.random() < 0.3     # alternative spellings of the integer fields (03, +3)
-    res, G = _obs(lambda: _parse(parser, [render(l, delim, rng, marker, alt) for l in case], delim, directed, marker))
-    cres, C = _obs(lambda: _parse(parser, [render(l, delim, rng, marker) for l in clean], delim, directed, marker))
+    conv = rng.choice(["int", "int", "decimal", "keyerr"])
+    res, G = _obs(lambda: _parse(parser, [render(l, delim, rng, marker, alt) for l in case], delim, directed, marker, conv))
+    cres, C = _obs(lambda: _parse(parser, [render(l, delim, rng, marker) for l in clean], delim, directed, marker, conv))
     line = {"op": "parse", "parser": parser, "dir": bool(directed), "lines": case, "delim": repr(delim),
-            "marker": marker, "alt": alt, "res": res, "cres": cres, "fork": False,
+            "marker": marker, "alt": alt, "conv": conv, "res": res, "cres": cres, "fork": False,
             "obs": core.observe(G, L, KNOWN, grid) if G is not None else empty,
             "cobs": core.observe(C, L, KNOWN, grid) if C is not None else empty,
             "hdir": bool(G.is_directed()) if G is not None else bool(directed)}
@@ -173,7 +191,8 @@ def run(prop, tier, seed):
         "the renderer (harness/check_c18.py: tokens joined by the delimiter, padding, comment tails) produces the text the abstract line "
         "describes; which lines are data rows is decided by the specification (IsData / Clean in spec/ParsersSpec.tla), mirrored by the "
         "field-count test of the renderer's caller",
-        "nodetype = timestamptype = int",
+        "nodetype = timestamptype = int, or a converter to int that rejects junk with another exception type (decimal.InvalidOperation, "
+        "KeyError)",
     ]
     rule = ("every line sequence of length <= 3 over the pool of 17 (snapshots) / 16 (interactions) line shapes -- valid 3- and "
             "4-column rows, event rows, empty, whitespace-only, comment-only, short rows, trailing comments, extra columns, "
